@@ -2,7 +2,7 @@
 // private/revcache/memrevcache and evaluates the C31 predicate directly on the implementation.
 //
 // The real cache reads the wall clock itself.  The run is therefore organised in PHASES: phase
-// j takes place at wall time base+4j s (base = a whole second shortly after start; one real
+// j takes place at wall time base+5j s (base = a whole second shortly after start; one real
 // sleep between two phases).  Revocations carry whole seconds; every expiry used is either far
 // away or base+4j+2 s, i.e. at least 1.5 s away from any instant at which an operation is
 // executed (an operation is only issued while the measured clock is inside [phase, phase+0.5 s];
@@ -31,8 +31,9 @@ import (
 
 const (
 	relBase  = 100000 // relative seconds corresponding to `base`
-	phaseGap = 4      // seconds between phases
-	window   = 500 * time.Millisecond
+	phaseGap = 5      // seconds between phases
+	expOff   = 3      // expiries lie at phase start + 3 s (2 s before the next phase)
+	window   = 1500 * time.Millisecond
 )
 
 type line struct{ op, impl, tag string }
@@ -91,7 +92,7 @@ func main() {
 	var expPool []int64
 	expPool = append(expPool, -7, -2)
 	for j := 0; j < nPhases; j++ {
-		expPool = append(expPool, int64(phaseGap*j+2))
+		expPool = append(expPool, int64(phaseGap*j+expOff))
 	}
 	expPool = append(expPool, 5000)
 
@@ -111,14 +112,10 @@ func main() {
 				}
 				cc.oneOp(ctx, e, base, planned, nowRelMs, expPool, ph)
 				if t1 := time.Now(); t1.After(planned.Add(window)) {
-					// the op just executed may have run late: it is kept only because the margin
-					// to every expiry is 1.5 s and window is 0.5 s; beyond 1 s of lateness drop it
-					if t1.After(planned.Add(2 * window)) {
-						cc.lines = cc.lines[:len(cc.lines)-1]
-						cc.poison()
-						skipped++
-						break
-					}
+					// the op just executed may have run too late: forget this cache altogether
+					cc.poison()
+					skipped++
+					break
 				}
 			}
 		}
@@ -146,7 +143,10 @@ func main() {
 
 // poison: after a late (dropped) operation the cache state is unknown to the op stream;
 // forget the case entirely.
-func (cc *cacheCase) poison() { cc.lines = nil; cc.c = memrevcache.New(); cc.last = map[revcache.Key]*path_mgmt.RevInfo{} }
+func (cc *cacheCase) poison() {
+	cc.lines, cc.hist, cc.c = nil, nil, memrevcache.New()
+	cc.last = map[revcache.Key]*path_mgmt.RevInfo{}
+}
 
 func (cc *cacheCase) oneOp(ctx context.Context, e *vlib.Env, base, planned time.Time, nowRelMs int64,
 	expPool []int64, ph int) {
@@ -168,9 +168,9 @@ func (cc *cacheCase) oneOp(ctx context.Context, e *vlib.Env, base, planned time.
 	case k < 50: // insert
 		exp := base.Unix() + expPool[r.Intn(len(expPool))]
 		if r.Chance(40) { // bias towards expiries that matter soon
-			exp = base.Unix() + int64(phaseGap*ph+2) + int64(phaseGap*r.Intn(2))
+			exp = base.Unix() + int64(phaseGap*ph+expOff) + int64(phaseGap*r.Intn(2))
 			if r.Chance(15) {
-				exp = base.Unix() + int64(phaseGap*ph-2) // just expired
+				exp = base.Unix() + int64(phaseGap*(ph-1)+expOff) // expired 2 s ago
 			}
 		}
 		ts := base.Unix() - 40 + int64(r.Intn(8))
